@@ -776,6 +776,7 @@ class ObsInterp(ObjInterp):
                     d = self.ev(st, 'renew(%s.lastObserved)' % s[1])
                     d['renewed:' + s[1]] = True
                     d['eq:' + s[1]] = False
+                    d['sp:' + s[1]] = None            # a fresh stamp: whatever poll state was copied before is gone
                     return [freeze(d)]
                 if s and s[0] == 'N':
                     self.report('renews-notification', 'an Observer member renews the observable\'s notification stamp: every other '
@@ -1063,15 +1064,21 @@ def check_observer(ctx, tu, F, analysed, all_tus=()):
                                      % (d.get('this'), d0.get(src))))
                 if role.startswith('copy') and src != 'this' and d.get(src) != d0.get(src):
                     problems.append(('source-modified', 'copy changed the observee of the source'))
-                # re-targeting: an observer that starts to observe another observable must not keep judging it by the time of its own
-                # last poll of the OLD one: it takes over the source's poll state (or starts afresh with a renewed stamp)
-                if role.endswith('assign') and src != 'this' and d.get('this') in OBJS and d.get('this') != d0.get('this'):
+                # a copy / an assigned observer carries the poll state of its source: it reports a pending notification exactly like
+                # the source would (and not again what the source already consumed)
+                if role in ('copy-ctor', 'copy-assign') and src != 'this' and d.get('this') in OBJS and d.get('sp:this') != src:
                     evs_ = list(d['$ev'])
-                    if d.get('sp:this') != src and 'renew(this.lastObserved)' not in evs_:
-                        problems.append(('stale-poll-state', 'the assignment re-targets the observer from %s to %s but leaves lastObserved as it was '
-                                         '(neither copied from the source nor renewed): the observer judges its new observable by the time of '
+                    if 'renew(this.lastObserved)' in evs_ or role == 'copy-ctor':
+                        problems.append(('poll-state-discarded', 'at exit lastObserved does not carry the poll state of the source (%s): a copied / '
+                                         'assigned observer gets a fresh stamp, so a notification that is still pending for the source is '
+                                         'never reported by the copy (observers stored by value lose notifications whenever their container '
+                                         'copies them); events %s' % ('it is renewed after the copy' if 'renew(this.lastObserved)' in evs_
+                                                                     else 'it is never copied', evs_)))
+                    else:
+                        problems.append(('stale-poll-state', 'the assignment makes the observer observe %s but leaves lastObserved as it was '
+                                         '(not copied from the source): the observer judges its new observable by the time of '
                                          'its last poll of the old one - notifications the source already consumed are reported again, or a '
-                                         'pending one is missed (events %s)' % (d0.get('this'), d.get('this'), evs_)))
+                                         'pending one is missed (events %s)' % (d.get('this'), evs_)))
             if role == 'wasNotified':
                 evs = list(d['$ev'])
                 if d0['this'] == 'null':
@@ -1230,6 +1237,10 @@ def null_literal(tu, e):
 ORPHAN = {'ctx': set(), 'helpers': set()}     # functions forming the orphaning context of ~Observable / Observer helpers it calls
 
 
+ORPHAN_NOT_NULL = ('~Observable assigns a non-null value to the observee of its observers instead of orphaning them (observee = nullptr): the '
+                   'observers are re-homed on another Observable, wasNotified() then compares against that object\'s notification stamp - a stamp '
+                   'drawn when it was created, possibly after the observer\'s last poll - and reports a notification although its observable is '
+                   'gone (the property requires false after the observable is destroyed)')
 ITER_MUT = ('~Observable iterates over its observer list and calls, for every element, a helper that edits that very list: %s. Erasing the '
             'current element shifts the remaining ones down, the loop then steps over the element that moved into its place (and runs with '
             'invalidated iterators): every other observer is skipped, keeps its observee pointer and dangles once the observable is gone')
@@ -1391,11 +1402,11 @@ def for_each_orphans(tu, f, F, al, analysed):
         if h is not None and h[0] == 'unknown':
             return ('undecided', h[1])
         if h is not None and h[0] == 'nonnull':
-            return ('violation', 'orphan-not-null', '~Observable assigns a non-null value to the observee of its observers')
+            return ('violation', 'orphan-not-null', ORPHAN_NOT_NULL)
         return ('violation', 'no-orphaning', '~Observable visits its observers without clearing their observee pointer%s: every registered '
                 'observer keeps a dangling pointer' % (' (the helper it calls on each of them does not clear it either)' if h else ''))
     if not all(n for x, n in assigns):
-        return ('violation', 'orphan-not-null', '~Observable assigns a non-null value to the observee of its observers')
+        return ('violation', 'orphan-not-null', ORPHAN_NOT_NULL)
     if not any(on_every_path(g, x['id']) for x, n in assigns):
         return ('undecided', 'the assignment of null is not executed on every path of the lambda')
     return ('ok', 'std::for_each over the whole observer list with a lambda that assigns null to the observee of its argument')
@@ -1490,7 +1501,7 @@ def drain_orphans(tu, f, F, al):
     if assigns:
         if all(assigns):
             return ('ok', 'drain loop: every entry is taken off the list (back/pop_back) and its observee set to null until the list is empty')
-        return ('violation', 'orphan-not-null', '~Observable assigns a non-null value to the observee of its observers')
+        return ('violation', 'orphan-not-null', ORPHAN_NOT_NULL)
     h = element_orphaned_by_helper(tu, F, body, elem['id'], lambda x: True)
     if h is not None and h[0] == 'mutates':
         return ('undecided', 'the drain loop orphans through a helper that edits the list itself (%s)' % h[1])
@@ -1768,6 +1779,52 @@ def remove_by_paths(tu, f, F, al):
     return None
 
 
+def swap_with_last_backref(tu, f, F, al):
+    """removal by moving the last entry into the hole:  L[i] = L.back(); L.pop_back();  If the function then maintains a
+    back-reference of the moved entry (a member of the Observer written with the hole index) it must write it through the
+    entry that was moved - L[i], or L.back() evaluated BEFORE pop_back().  L.back() evaluated AFTER pop_back() designates the
+    new last entry, a different element: recognised-wrong.  Returns the message, or None if the idiom is not present"""
+    g = tu.cfg(f)
+    if g is None:
+        return None
+
+    def list_call(e, names):
+        e = tu.strip(e, casts=True)
+        if e is None or e.get('kind') not in ('CXXMemberCallExpr', 'CXXOperatorCallExpr'):
+            return None
+        sd, obj, args = tu.call_parts(e)
+        if sd.get('q', '').split('::')[-1] in names and obj is not None and list_expr(tu, obj, F, al):
+            return args
+        return None
+    move = pop = None
+    for b, i, x in g.stmts():
+        if x.get('kind') == 'BinaryOperator' and x.get('opcode') == '=':
+            l, r = tu.kids(x)
+            if list_call(l, ('operator[]', 'at')) is not None and list_call(r, ('back',)) is not None:
+                move = x
+        if x.get('kind') == 'CXXMemberCallExpr' and list_call(x, ('pop_back',)) is not None and move is not None and pop is None:
+            if g.dominates(g.where(move['id']), g.where(x['id'])):
+                pop = x
+    if move is None or pop is None:
+        return None
+    hole = tu.show(list_call(tu.kids(move)[0], ('operator[]', 'at'))[0])
+    for b, i, x in g.stmts():
+        if x.get('kind') == 'BinaryOperator' and x.get('opcode') == '=':
+            lhs = tu.strip(tu.kids(x)[0], casts=True)
+            if lhs is None or lhs.get('kind') != 'MemberExpr' or tu.sd(lhs).get('rec') != OBSR or not tu.kids(lhs):
+                continue
+            base = tu.strip(tu.kids(lhs)[0], casts=True)
+            while base is not None and base.get('kind') == 'UnaryOperator' and base.get('opcode') == '*':
+                base = tu.strip(tu.kids(base)[0], casts=True)
+            if list_call(base, ('back',)) is not None and g.where(x['id']) and g.dominates(g.where(pop['id']), g.where(x['id'])):
+                return ('removeObserver moves the last entry into the hole (`%s`) and pops the back, then updates `%s` through back() evaluated '
+                        'AFTER pop_back(): that is the new last entry, not the entry that was moved into slot %s - the moved observer keeps a '
+                        'stale back-reference (and an unrelated one gets a wrong one), later removals of those observers miss their entry, '
+                        'they stay listed after their destruction and ~Observable writes through dangling Observer*'
+                        % (tu.show(move), tu.show(lhs), hole))
+    return None
+
+
 def own_member_calls(tu, f):
     """calls to other members of Observable/Observer inside f (helpers the normal-form rules do not look into)"""
     out = []
@@ -1828,7 +1885,8 @@ def check_observable(ctx, tu, F, analysed):
         elif not calls:
             ctx.violation(R1, inst, 'registerObserver does not add the observer to the list: ~Observable cannot orphan it and the observer '
                           'keeps a dangling observee pointer', tu.fn_loc(f), key='%s|%s|%s|not-registered' % (R1, file, inst))
-        elif len(appends) == 1 and len(calls) == 1 and on_every_path(g, appends[0][1]['id']):
+        elif len(appends) == 1 and len([c for c in calls if c[0] not in ('size', 'empty', 'begin', 'end', 'cbegin', 'cend', 'back', 'front', 'capacity')]) == 1 \
+                and on_every_path(g, appends[0][1]['id']):
             ctx.ok(R1, inst, 'appends the address of its argument exactly once on every path', tu.fn_loc(f))
         else:
             ctx.undecided(R1, inst, 'list operations %s are not the recognised form push_back(&arg) on every path' % [c[0] for c in calls], tu.fn_loc(f))
@@ -1868,7 +1926,10 @@ def check_observable(ctx, tu, F, analysed):
             reg_appends = bool(rc_) and all(c[0] in ('push_back', 'emplace_back') for c in rc_) and not any(
                 y.get('kind') == 'CallExpr' and tu.sd(y).get('q') in ('std::sort', 'std::stable_sort', 'std::inplace_merge')
                 for y in tu.walk(tu.body(fr_)))
-        if bsearch and reg_appends:
+        moved = swap_with_last_backref(tu, f, F, al)
+        if moved is not None:
+            ctx.violation(R1, inst, moved, tu.fn_loc(f), key='%s|%s|%s|backref-on-wrong-element' % (R1, file, inst))
+        elif bsearch and reg_appends:
             ctx.violation(R1, inst, 'removeObserver locates the entry with %s, a binary search that requires the list to be sorted by address, '
                           'but registerObserver appends with push_back (the list is in registration order): the search can miss an observer '
                           'that is in the list, it stays registered after its destruction and ~Observable writes through the dangling '
@@ -2104,12 +2165,12 @@ def range_for_orphans(tu, f, g, loop, F, al):
         if h is not None and h[0] == 'unknown':
             return ('undecided', h[1])
         if h is not None and h[0] == 'nonnull':
-            return ('violation', 'orphan-not-null', '~Observable assigns a non-null value to the observee of its observers')
+            return ('violation', 'orphan-not-null', ORPHAN_NOT_NULL)
     if not assigns:
         return ('violation', 'no-orphaning', '~Observable iterates over its observers without clearing their observee pointer: every '
                 'registered observer keeps a dangling pointer')
     if not all(isnull for x, isnull in assigns):
-        return ('violation', 'orphan-not-null', '~Observable assigns a non-null value to the observee of its observers')
+        return ('violation', 'orphan-not-null', ORPHAN_NOT_NULL)
     # executed on every iteration: the assignment post-dominates the loop-variable declaration, no other exit from the body
     lv_pos = None
     for b, i, x in g.stmts():
